@@ -651,7 +651,7 @@ func describe(c Case, res *kit.Result) {
 func TestC15(t *testing.T) {
 	kit.Main(t, kit.Spec[Case]{
 		ID: "C15", Level: "exploration",
-		Rule: "a case is one history of a drawn kind (lists | notes | toc | mixed | derived): lists = 1-10 (thorough 1-20) calls of AddListItem/AddBulletList/AddNumberedList/CreateMultiLevelList/AddListItem(nil) over every ListType, every BulletType, levels -1..10, starts 0..9 (every fourth item repeats the type/symbol/level of an earlier one with a new start); notes = AddFootnote/AddEndnote/AddFootnoteToRun/RemoveFootnote/RemoveEndnote with live, already-removed and unknown ids and XML-expressible texts; toc = headings (levels 1-9, texts incl. empty/blank), paragraphs, tables, an optional foreign paragraph-style TOC, GenerateTOC/AutoGenerateTOC (MaxLevel 1-9 or nil config), UpdateTOC x1-3, ListHeadings/GetHeadingCount; every kind with reopen (ToBytes->OpenFromMemory; the registries are per-document and an opened document continues from the parts it came with: its model keeps the notes and list items of the file); in 2 of 5 reopens the saved package is first re-written by the harness the way ANOTHER PRODUCER writes word/footnotes.xml, word/endnotes.xml and word/numbering.xml (every feature drawn on its own: another namespace prefix / the default namespace / the prefix w bound to some other namespace, single quotes, no white space, no XML declaration, self-closed empty elements, comments, further namespace declarations + mc:Ignorable, reversed attribute order, w:type=\"normal\" written out on all or every second ordinary note, no special entries / Word's separator pair / a continuationNotice entry / special entries after the notes, notes in reverse order, note ids n -> n*stride+shift with stride 1,2,3,7 and shift 0..100000, the note body in Word's shape or over two runs / two paragraphs, w:nsid+w:multiLevelType+w:tmpl+w:tplc+w:numIdMacAtCleanup, abstractNumIds and numIds renumbered the same way (numIds in the main part too), definitions and instances in reverse order) - the harness verifies with its own readers that the re-written package holds the same notes and the same list paragraphs with the same level definitions, then renumbers the ids of its model; small-probability corners: start numbers 10..100000 (1 item in 8), bullet symbols other than the five constants (1 in 12: multi-byte, ASCII, XML-special, \"%1.\", with \"_\"), 9..70 items in one CreateMultiLevelList / 9..33 (thorough ..70) initial notes / 9..110 initial body ops of a toc case (1 case in 25/40/25), heading and paragraph texts equal to a TOC title (1 in 12), body texts equal to a note marker, removal of the id of a special entry; derived = several documents: document 0 gets 1-4 notes and now and then list items (1 case in 3: list items and now and then notes, and the later ops are mostly list ops), is saved and opened again in 4 of 5 cases (1 in 4 of those 'cold': no note call before the rendering), 1-2 documents are rendered from it (LoadTemplateFromDocument + RenderTemplateToDocument, 1 in 6 RenderToDocument), then 2-9 (thorough 2-16) ops each aimed at one of the documents (note removals by live/removed/unknown id, note adds, list ops, paragraphs, reopen, a further rendering from any document) - every document has its own model (a copy of its source's at the time of the rendering) and ALL documents are saved and judged after every op. non-trivial = lists: >=3 items of >=2 type/level/start combinations; notes: >=2 adds and >=1 successful removal; toc: >=3 headings of >=2 levels, one deeper than MaxLevel, and an update/regeneration after a heading was added to a document that already had a TOC. derived: >=1 rendered document and (>=2 note adds and >=1 successful removal after a rendering, or >=2 list items added after a rendering). distinct = distinct sequence of (op kind, list type+level | id kind | heading level | MaxLevel | repetitions | fresh | cold | document index)",
+		Rule: "a case is one history of a drawn kind (lists | notes | toc | mixed | derived): lists = 1-10 (thorough 1-20) calls of AddListItem/AddBulletList/AddNumberedList/CreateMultiLevelList/AddListItem(nil) over every ListType, every BulletType, levels -1..10, starts 0..9 (every fourth item repeats the type/symbol/level of an earlier one with a new start); notes = 0-3 initial adds, then AddFootnote/AddEndnote/AddFootnoteToRun/RemoveFootnote/RemoveEndnote with live, already-removed and unknown ids and XML-expressible texts (so a rejected removal is now and then the first note call of its kind on a document that has no such notes part yet, new or opened, and the first add comes after it: label note:first-add-after-rejected-removal); toc = headings (levels 1-9, texts incl. empty/blank), paragraphs, tables, an optional foreign paragraph-style TOC, GenerateTOC/AutoGenerateTOC (MaxLevel 1-9 or nil config), UpdateTOC x1-3, ListHeadings/GetHeadingCount; every kind with reopen (ToBytes->OpenFromMemory; the registries are per-document and an opened document continues from the parts it came with: its model keeps the notes and list items of the file); in 2 of 5 reopens the saved package is first re-written by the harness the way ANOTHER PRODUCER writes word/footnotes.xml, word/endnotes.xml and word/numbering.xml (every feature drawn on its own: another namespace prefix / the default namespace / the prefix w bound to some other namespace, single quotes, no white space, no XML declaration, self-closed empty elements, comments, further namespace declarations + mc:Ignorable, reversed attribute order, w:type=\"normal\" written out on all or every second ordinary note, no special entries / Word's separator pair / a continuationNotice entry / special entries after the notes, notes in reverse order, note ids n -> n*stride+shift with stride 1,2,3,7 and shift 0..100000, the note body in Word's shape or over two runs / two paragraphs, w:nsid+w:multiLevelType+w:tmpl+w:tplc+w:numIdMacAtCleanup, abstractNumIds and numIds renumbered the same way (numIds in the main part too), definitions and instances in reverse order) - the harness verifies with its own readers that the re-written package holds the same notes and the same list paragraphs with the same level definitions, then renumbers the ids of its model; small-probability corners: start numbers 10..100000 (1 item in 8), bullet symbols other than the five constants (1 in 12: multi-byte, ASCII, XML-special, \"%1.\", with \"_\"), 9..70 items in one CreateMultiLevelList / 9..33 (thorough ..70) initial notes / 9..110 initial body ops of a toc case (1 case in 25/40/25), heading and paragraph texts equal to a TOC title (1 in 12), body texts equal to a note marker, removal of the id of a special entry; derived = several documents: document 0 gets 1-4 notes and now and then list items (1 case in 3: list items and now and then notes, and the later ops are mostly list ops), is saved and opened again in 4 of 5 cases (1 in 4 of those 'cold': no note call before the rendering), 1-2 documents are rendered from it (LoadTemplateFromDocument + RenderTemplateToDocument, 1 in 6 RenderToDocument), then 2-9 (thorough 2-16) ops each aimed at one of the documents (note removals by live/removed/unknown id, note adds, list ops, paragraphs, reopen, a further rendering from any document) - every document has its own model (a copy of its source's at the time of the rendering) and ALL documents are saved and judged after every op. non-trivial = lists: >=3 items of >=2 type/level/start combinations; notes: >=2 adds and >=1 successful removal; toc: >=3 headings of >=2 levels, one deeper than MaxLevel, and an update/regeneration after a heading was added to a document that already had a TOC. derived: >=1 rendered document and (>=2 note adds and >=1 successful removal after a rendering, or >=2 list items added after a rendering). distinct = distinct sequence of (op kind, list type+level | id kind | heading level | MaxLevel | repetitions | fresh | cold | document index)",
 		Gen:  genCase, Run: run, Findings: findings, Fixed: fixedCases,
 		MustSee: map[string]float64{"kind:lists": 0.15, "kind:notes": 0.12, "kind:toc": 0.15, "kind:mixed": 0.03, "reopen": 0.2, "reopen:fresh-process": 0.08,
 			"list:level-outside-0-8": 0.07, "list:same-definition-key-other-start": 0.05, "list:start-judged": 0.15, "rm:live": 0.05, "rm:unknown": 0.08, "rm:removed": 0.004,
@@ -661,9 +661,9 @@ func TestC15(t *testing.T) {
 			"derived:base-cold": 0.004, "list:item-after-derive": 0.02, "nontrivial:derived": 0.03,
 			"reopen:foreign": 0.05, "foreign:notes-in-file": 0.025, "foreign:type-normal": 0.015, "foreign:note-ids-renumbered": 0.015, "foreign:special-entries": 0.015,
 			"foreign:numbering-in-file": 0.02, "foreign:numbering-ids-renumbered": 0.015, "foreign:prefix": 0.02, "list:start-more-digits": 0.03, "list:symbol:custom": 0.008,
-			"many:list-items>=10": 0.008, "many:headings>=10": 0.004, "many:note-adds>=10": 0.002},
+			"note:first-add-after-rejected-removal": 0.012, "many:list-items>=10": 0.008, "many:headings>=10": 0.004, "many:note-adds>=10": 0.002},
 		Assumptions: []string{
-			"numbering, notes and TOC are read from word/numbering.xml, word/footnotes.xml, word/endnotes.xml and the w:sdt[docPartGallery='Table of Contents'] / TOCn-styled paragraphs of word/document.xml by the harness's own readers",
+			"numbering, notes and TOC are read by the harness's own readers; the document's footnotes / endnotes / numbering part is the part that the relationship of that type in word/_rels/document.xml.rels leads to and that [Content_Types].xml declares with the footnotes / endnotes / numbering content type (as any consumer locates it) - a zip entry that merely has the conventional name word/footnotes.xml, word/endnotes.xml or word/numbering.xml without such a relationship is not part of the document and its contents count for nothing; a document without the relationship has no notes / no numbering definitions; the TOC is the w:sdt[docPartGallery='Table of Contents'] / the TOCn-styled paragraphs of word/document.xml",
 			"AddNumberedList and AddBulletList name no start number: w:start is not judged for their items; StartNumber is judged for AddListItem/CreateMultiLevelList items of ordered types only (the field is documented as 'ordered lists only')",
 			"a level outside 0-8 may be clamped or rejected; what is demanded is that an emitted list paragraph has a definition at the level it is written at",
 			"ListHeadings is compared on the entries with non-empty text (the statement is silent on headings without text); GetHeadingCount counts every heading paragraph",
